@@ -1485,8 +1485,9 @@ class Interp:
         if len(node.generators) != 1 or not node.generators[0].ifs:
             return None
         g = node.generators[0]
-        src = getattr(self, "_pre_src", None)
         src = self.eval(g.iter, env)
+        if isinstance(src, SObj):
+            src = as_seq(self, src)
         if not (isinstance(src, SSeq) and not z3.is_int_value(z3.simplify(src.len))):
             self._pre = src
             out = []
@@ -1538,6 +1539,8 @@ class Interp:
             return None
         g = node.generators[0]
         src = self.eval(g.iter, env)
+        if isinstance(src, SObj):
+            src = as_seq(self, src)
         if isinstance(src, SStr):
             st = src.t
 
@@ -1896,6 +1899,9 @@ def sym_binop(interp, op, a, b):
         return a * b
     if isinstance(a, (SSeq, list, tuple)) and isinstance(b, (SSeq, list, tuple)) and op is ast.Add:
         return seq_concat(interp, a, b)
+    if isinstance(a, (list, tuple)) and len(a) == 1 and isinstance(b, SInt) and op is ast.Mult:
+        # [c] * n with symbolic n: n copies of c (none when n <= 0)
+        return SSeq(z3.simplify(z3.If(b.t > 0, b.t, 0)), lambda i, c=a[0]: c, name="repeat")
     if isinstance(a, str) and op is ast.Mod:
         return Opaque("%-format")
     raise Undecided(f"operator {op.__name__} on {type(a).__name__}, {type(b).__name__}")
@@ -2083,6 +2089,17 @@ def sym_eq(interp, a, b):
         return acc
     if isinstance(a, (SSeq, list, tuple)) and isinstance(b, (SSeq, list, tuple)):
         x, y = as_seq(interp, a), as_seq(interp, b)
+        if getattr(interp, "quant_skolem", False):
+            # Skolem mode (elements may be objects whose == forks): equal lengths; either every pair of elements is equal
+            # (recorded, to be used at the index terms the scenario needs: instantiate_forall) or the sequences differ
+            # (nothing assumed about where: assuming less is sound)
+            if not interp.ctx.branch(x.len == y.len):
+                return False
+            if interp.ctx.choose(2, "sequence ==") == 0:
+                interp.forall_facts = getattr(interp, "forall_facts", [])
+                interp.forall_facts.append((SSeq(x.len, lambda i: sym_eq(interp, x.at(i), y.at(i)), name="=="), True))
+                return True
+            return False
         j = z3.Int("j!eq")
         try:
             body = term(x.at(j)) == term(y.at(j))
